@@ -11,6 +11,7 @@ import SparseSpace.Properties.C06
 #print axioms SparseSpace.C06.step_wf
 #print axioms SparseSpace.C06.raise_lmax_terminates
 #print axioms SparseSpace.C06.raiseLoop_terminates
+#print axioms SparseSpace.C06.evaluate_transparent
 #print axioms SparseSpace.C06.reachable_wf
 #print axioms SparseSpace.C06.wf_clauses
 #print axioms SparseSpace.C06.all_histories
